@@ -496,6 +496,20 @@ def np_nonzero(ex, st, a, **kw):
     return (ArrayVal((K,), lambda q: SRC(to_int(q)), 'int'),)
 
 
+def np_floor(ex, st, v, **kw):
+    if is_conc_num(v):
+        import math
+        return float(math.floor(v))
+    return z3.ToReal(z3.ToInt(to_real(v)))
+
+
+def np_ceil(ex, st, v, **kw):
+    if is_conc_num(v):
+        import math
+        return float(math.ceil(v))
+    return -z3.ToReal(z3.ToInt(-to_real(v)))
+
+
 def torch_cat(ex, st, parts, axis=0, dim=None, **kw):
     ex.assumed.append('model: torch tensor operations used here (cat, argmax, slicing, masked assignment, comparison) behave as their numpy counterparts')
     return np_concatenate(ex, st, list(parts), axis=dim if dim is not None else axis, **kw)
@@ -701,7 +715,7 @@ def _logical(fn):
 LIB = {
     'np.logical_and': _logical(band), 'np.logical_or': _logical(bor), 'np.logical_not': _logical(bnot),
     'np.exp': np_exp, 'math.exp': np_exp, 'np.logaddexp': np_logaddexp, 'np.nonzero': np_nonzero,
-    'torch.cat': torch_cat, 'torch.argmax': torch_argmax,
+    'torch.cat': torch_cat, 'torch.argmax': torch_argmax, 'np.ceil': np_ceil, 'np.floor': np_floor, 'math.ceil': np_ceil, 'math.floor': np_floor,
     'np.array': np_array, 'np.asarray': np_asarray, 'np.fromiter': lambda ex, st, v, **kw: np_array(ex, st, v), 'np.arange': np_arange, 'np.full': np_full,
     'np.ones': np_ones, 'np.zeros': np_zeros, 'np.zeros_like': np_zeros_like, 'np.minimum': np_minimum,
     'np.maximum': np_maximum, 'np.copy': np_copy, 'np.sum': np_sum, 'np.any': np_any, 'np.all': np_all,
@@ -915,6 +929,7 @@ def b_sorted(ex, st, v, key=None, reverse=False, _node=None):
         st.assume(z3.ForAll([i, j], z3.Implies(z3.And(rng(i), rng(j), i < j, tie), PERM(i) < PERM(j))))
     ex.assumed.append('model: sorted() returns a stable permutation of its input ordered by the key function given in the source')
     ex.spec_funcs['SORT_PERM'] = ex.spec_funcs.get('SORT_PERM') or _spec(lambda q: PERM(to_int(q)))
+    ex.spec_funcs['SORT_INV'] = ex.spec_funcs.get('SORT_INV') or _spec(lambda q: INV(to_int(q)))
     return ArrayVal((ln,), lambda q: item(PERM(to_int(q))), 'obj')
 
 
